@@ -44,6 +44,9 @@ type Cfg struct {
 	// Joiners > 1: nodes Members+1..Members+Joiners exist, empty, not members yet (Joiner is
 	// then true as well; a configuration written before this field existed reads as one joiner)
 	Joiners int `json:"joiners,omitempty"`
+	// Unequal: every second proposal carries a payload 64 bytes longer than the others, so that a
+	// byte budget (MaxSizePerMsg) can stop in front of one entry and still have room for a later one
+	Unequal bool `json:"unequal_payloads,omitempty"`
 }
 
 // joiners returns the number of empty nodes that exist next to the initial members.
@@ -1548,6 +1551,9 @@ func (c *cluster) step(e Event) *cluster {
 		}
 		u.Proposals++
 		in = input{k: inPropose, data: []byte(fmt.Sprintf("p%d", u.Proposals))}
+		if c.cfg.Unequal && u.Proposals%2 == 0 {
+			in.data = append(in.data, bytes.Repeat([]byte{'x'}, 64)...)
+		}
 	case evCrash:
 		if !n.alive || int(u.Crashes) >= c.bud.Crashes {
 			return nil
